@@ -307,6 +307,30 @@ fn main() {
             }
         }
     }
+    // paths made of every character a path may legally carry besides letters and digits (one at a time, and all together):
+    // the path is signed exactly as it is sent
+    let mut odd_paths: Vec<&'static str> = Vec::new();
+    let specials = "!$&'()*+,;=:@-._~|^[]{}\"`";
+    for ch in specials.chars() {
+        let p = format!("/m/p{ch}q/r{ch}");
+        if p.parse::<hyper::Uri>().is_ok() {
+            odd_paths.push(Box::leak(p.into_boxed_str()));
+        }
+    }
+    for p in ["/machine/plugins(1)/status:latest;v=2,a@b", "/m/tagsList('a')!:*", "/a+b/c=d&e", "/%41%2f%7E/~x", "/a%zz"] {
+        if p.parse::<hyper::Uri>().is_ok() {
+            odd_paths.push(p);
+        }
+    }
+    for p in &odd_paths {
+        for m in ["GET", "POST"] {
+            for q in [vec![], vec!["a=c".to_string()]] {
+                for h in [vec![], vec![("x-a", "1")]] {
+                    cases.push(Case { method: m, path: p, query: q.clone(), headers: h.clone(), body: if m == "POST" { Some(b"x") } else { None } });
+                }
+            }
+        }
+    }
     if let Ok(path) = std::env::var("VERIF_REPLAY") {
         let doc: serde_json::Value = serde_json::from_str(&std::fs::read_to_string(path).unwrap()).unwrap();
         let want = if doc["case"]["b"].is_object() { doc["case"]["b"].clone() } else { doc["case"].clone() };
@@ -386,7 +410,7 @@ fn main() {
     res.cov("exemption_predicate_cases", skip_evals);
     res.cov("exhaustive", true);
     res.cov("rule", format!(
-        "every request over methods {methods:?} x paths {paths:?} x every sequence of <= {maxq} query segments from {} forms (4 keys incl. a prefix pair and a case pair x {{valueless, empty, c, bc, %20, c=d, Yg==}} + the empty segment) x every subset <= 3 of {} client headers (duplicate names via case, padded value, forged authorization header, empty value, a name that is a prefix of another) x 3 bodies{}; distinct = distinct reference canonical strings", pair_forms.len(), hpool.len(), if thorough { "" } else { " (quick: two-parameter queries only with <= 1 client header)" }));
+        "every request over methods {methods:?} x paths {paths:?} x every sequence of <= {maxq} query segments from {} forms (4 keys incl. a prefix pair and a case pair x {{valueless, empty, c, bc, %20, c=d, Yg==}} + the empty segment) x every subset <= 3 of {} client headers (duplicate names via case, padded value, forged authorization header, empty value, a name that is a prefix of another) x 3 bodies{}; plus {} paths made of each character a path may carry besides letters and digits; distinct = distinct reference canonical strings", pair_forms.len(), hpool.len(), if thorough { "" } else { " (quick: two-parameter queries only with <= 1 client header)" }, odd_paths.len()));
     res.cov("total_cases", total as u64);
     res.sample(cases[total / 3].json());
     res.sample(cases[total - 1].json());
